@@ -57,6 +57,15 @@ pub struct Model {
 }
 
 impl Model {
+    /// Did `actor` ever write a (non-filler) line whose text contains `filler`'s text? A filler
+    /// line such as `}` is byte-identical to the closing token of many payload lines; when one
+    /// of the two moves, no snapshot-based tracker can tell which `}` is which, so crediting
+    /// the filler line to the writer of such a payload line is within what the property
+    /// can demand (diff ambiguity, DESIGN 1.4 R2).
+    pub fn wrote_line_containing(&self, filler: &str, actor: Actor) -> bool {
+        let k = key_of(filler);
+        !k.is_empty() && self.map.iter().any(|(key, e)| key.len() > k.len() && key.contains(&k) && e.writers.contains(&actor))
+    }
     pub fn fresh_token(&mut self) -> String {
         self.next_token += 1;
         format!("k{}", self.next_token)
